@@ -30,7 +30,8 @@ namespace nmtools::view
     constexpr auto reduce_logical_or(const left_t& a, const axis_t& axis)
     {
         auto init = false;
-        return reduce(logical_or_t{},a,axis,init);
+        // (dtype, then initial: the identity of the operation is the fold's INITIAL value)
+        return reduce(logical_or_t{},a,axis,None,init);
     } // reduce_logical_or
 }
 
